@@ -1,7 +1,7 @@
 #!/bin/bash
 # tools/pull.sh C10 : copy a builder's own files (everything except shared files) into /verif
 P=$1; W=/tmp/w$P/verif
-for f in $(/verif/tools/integrate.sh $P | grep -v -E '^(MANIFEST.json|known_findings.json|harness/run.py|harness/common.py|harness/BUILDING.md|check|tools/|harness/c05.py|DESIGN.md|\.gitignore)'); do
+for f in $(/verif/tools/integrate.sh $P | grep -v -E '^(MANIFEST.json|known_findings.json|harness/run.py|harness/common.py|harness/BUILDING.md|check|tools/(mk_manifest.py|agent_prompt.py|seed_prompt.py|integrate.sh|pull.sh|lk|try_seed.sh|keep_seed.sh|gen_periodic.py)|harness/c05.py|DESIGN.md|\.gitignore)'); do
   mkdir -p /verif/$(dirname $f); cp $W/$f /verif/$f; echo "copied $f"
 done
 echo "--- known findings in the builder's copy:"
